@@ -4,7 +4,9 @@
 package main
 
 import (
+	"fmt"
 	"hash/fnv"
+	"runtime"
 	"runtime/debug"
 	"strconv"
 	"strings"
@@ -284,6 +286,27 @@ const callDeadline = 2 * time.Second
 
 var hangs int
 
+// panicClass is the canonical class of a recovered panic value.  The property says that division or remainder by zero
+// panics (the library's own value "divide by zero") and that nothing else does; the model states which panic each entry
+// point raises (today: the explicit one, everywhere), so a change of WHICH panic fires is visible.
+//
+//	panic:divzero         the library's explicit panic: a non-runtime value whose text is "divide by zero"
+//	panic:runtime-divide  the Go runtime's own integer-divide panic
+//	panic:runtime         any other runtime.Error (index out of range, nil dereference, ...)
+//	panic:other           anything else
+func panicClass(r any) string {
+	if re, ok := r.(runtime.Error); ok {
+		if strings.Contains(re.Error(), "integer divide by zero") {
+			return "panic:runtime-divide"
+		}
+		return "panic:runtime"
+	}
+	if fmt.Sprint(r) == "divide by zero" {
+		return "panic:divzero"
+	}
+	return "panic:other"
+}
+
 func (area) Run(line string) string {
 	if hangs >= 3 {
 		return "skipped-after-crash"
@@ -292,7 +315,7 @@ func (area) Run(line string) string {
 	go func() {
 		defer func() {
 			if r := recover(); r != nil {
-				done <- "panic"
+				done <- panicClass(r)
 			}
 		}()
 		done <- exec(line)
